@@ -495,7 +495,8 @@ def coq_case(case, obs):
     return C("mk_case", _kind_term(case), N(obs["n"]), B(case["exact"]), L(ops))
 
 
-def coq_obs(case, obs):
+def coq_results(case, obs):
+    """the pull results as a Coq list of vres (also used by C12)"""
     res = []
     for r in obs["pulls"]:
         if r[0] == "ok":
@@ -512,8 +513,12 @@ def coq_obs(case, obs):
             res.append("VErrNoData")
         else:
             res.append("VOther")
+    return L(res)
+
+
+def coq_obs(case, obs):
     buf = obs.get("buffer")
-    return P(L(res), NONE if buf is None else Some(L(ZZ(t) for t in buf)))
+    return P(coq_results(case, obs), NONE if buf is None else Some(L(ZZ(t) for t in buf)))
 
 
 # ----------------------------------------------------------------------------
